@@ -5,27 +5,12 @@ Set Warnings "-ambiguous-paths".
 From Coquelicot Require Import Coquelicot.
 From PyLib Require Import PyVal PyBuiltins Ideal PyEval.
 From Gen Require Import M_base M_Angle M_Interpolation.
+From Proofs.C12 Require Import C12_tac.
 Import ListNotations.
 Open Scope R_scope.
 
-Definition tol0 : R := Rlit 1 (-10).
-Definition flist (l : list R) : val R := VList (map VFloat l).
-Definition obj (xs ys tbl : list R) : val R := VObj cInterpolation [flist xs; flist ys; flist tbl; VFloat tol0].
-
-Ltac zconst :=
-  repeat match goal with
-  | |- context [IZR ?z] =>
-      lazymatch z with
-      | Z0 => fail | Zpos _ => fail | Zneg _ => fail
-      | _ => let z' := eval cbv in z in progress change (IZR z) with (IZR z')
-      end
-  end.
-Ltac c12lra := unfold tol0 in *; cbn [zf f_of_Z Rops RopsC]; zconst; pylra.
 Ltac c12run := pyrun_using c12lra.
 
-(* divided differences of three points, written out *)
-Definition dd2 (xa xb ya yb : R) : R := (ya - yb) / (xa - xb).
-Definition dd3 (x1 x2 x3 y1 y2 y3 : R) : R := (dd2 x1 x2 y1 y2 - dd2 x2 x3 y2 y3) / (x1 - x3).
 (* the parabola through the three points, Lagrange form (independent of the Newton form) *)
 Definition lagrange3 (x1 x2 x3 y1 y2 y3 x : R) : R :=
   y1 * ((x - x2) * (x - x3)) / ((x1 - x2) * (x1 - x3)) +
